@@ -77,20 +77,20 @@ static void waiter (int tid) {
 			cvpos = n; ws[n].v = &S.cv; ws[n].funcs = &nsync_cv_waitable_funcs; n++;
 			for (i = 0; i < n; i++) pw[i] = &ws[i];
 			api = "nsync_wait_n"; rt_cover (CV_WAITN);
-			RT_OP (api, res = nsync_wait_n (&S.mu, writer ? &my_lock : &my_rlock, writer ? &my_unlock : &my_runlock, dl, n, pw));
+			RT_OP_DL (api, timed ? rt_ts_ns (dl) : 0, res = nsync_wait_n (&S.mu, writer ? &my_lock : &my_rlock, writer ? &my_unlock : &my_runlock, dl, n, pw));
 			if (res == cvpos) woke = 1;
 			else if (res == n) woke = 0;
 			else rt_violation ("waitn-result", "counter", "nsync_wait_n returned index %d, a counter that is not zero (cv is index %d of %d)", res, cvpos, n);
 			res = woke ? 0 : ETIMEDOUT;
 		} else if (S.foreign) {
 			api = "nsync_cv_wait_with_deadline_generic";
-			RT_OP (api, res = nsync_cv_wait_with_deadline_generic (&S.cv, &S.mu, writer ? &my_lock : &my_rlock, writer ? &my_unlock : &my_runlock, dl, first && w->kind == WK_NOTE ? S.note : NULL));
+			RT_OP_DL (api, timed ? rt_ts_ns (dl) : 0, res = nsync_cv_wait_with_deadline_generic (&S.cv, &S.mu, writer ? &my_lock : &my_rlock, writer ? &my_unlock : &my_runlock, dl, first && w->kind == WK_NOTE ? S.note : NULL));
 			woke = (res == 0);
 		} else if (w->kind == WK_PLAIN || !first) {
 			RT_OP (api, nsync_cv_wait (&S.cv, &S.mu)); res = 0; woke = 1;
 		} else {
 			api = "nsync_cv_wait_with_deadline";
-			RT_OP (api, res = nsync_cv_wait_with_deadline (&S.cv, &S.mu, dl, w->kind == WK_NOTE ? S.note : NULL));
+			RT_OP_DL (api, timed ? rt_ts_ns (dl) : 0, res = nsync_cv_wait_with_deadline (&S.cv, &S.mu, dl, w->kind == WK_NOTE ? S.note : NULL));
 			woke = (res == 0);
 		}
 		if (rt_op_sleeps ()) { rt_cover (CV_SLEPT); rt_mark_nontrivial (); }
